@@ -246,13 +246,16 @@ def abspath (p : Bytes) : Bytes :=
   let q := abspathCore p
   if startsWith p [0x2F] && !startsWith q [0x2F] then 0x2F :: q else q
 
-/-- `URI.normalize()`.  (`if not self.port: self.port = self.PORT` leaves `_port` falsy when both are.) -/
+/-- `URI.normalize()`.  `self.port = self.port` stores the effective port: the stored one, else the default port of the class
+    the lower-cased scheme selects (the F64 repair: the default port is explicit in the components afterwards). -/
 def normalize (E : Env) (u : Uri) : Uri :=
   let sc := lowerBytes u.scheme
   let host := lowerBytes u.host
   let q := abspath u.path
-  { cls := if sc.isEmpty then u.cls else lookupScheme E.schemes sc,
-    scheme := sc, username := u.username, password := u.password, host := host, port := u.port,
+  let cls := if sc.isEmpty then u.cls else lookupScheme E.schemes sc
+  { cls := cls,
+    scheme := sc, username := u.username, password := u.password, host := host,
+    port := (match u.port with | some p => some p | none => cls.map (·.2)),
     path := if !startsWith q [0x2F] && !host.isEmpty && !sc.isEmpty && !q.isEmpty then 0x2F :: q else q,
     query := u.query, fragment := u.fragment }
 
